@@ -65,6 +65,9 @@ PROP = dict(
           "live keys, an operation moved an existing key to the front from a non-front position and a later erase or eviction "
           "succeeded. Distinct = distinct histories (hash of the operation words per container type)."),
     assumptions=["single-threaded use",
+                 "the structural link walk and the operations that pass the stored key object back in read protected members (items, head, tail, "
+                 "Item::prev/next/key/size[/value]); on a tree that stores the recency order differently they are compiled out (class "
+                 "links:layout-differs-walk-compiled-out) and the public-interface oracle, the heap balance and the sanitizers decide alone",
                  "key types: hashable (std::hash specialisation, noexcept or not), equality comparable, copy- and move-constructible; the hash and "
                  "operator== of a key do not change while it is stored; nothing is assumed about the state of a key object after it was passed "
                  "to emplace(K&&)/insert(K&&) (it is not looked at again)",
